@@ -35,7 +35,18 @@ def forms(nums):
     return [(a, b) for a in nums for b in nums] + [(a, None) for a in nums] + [(None, b) for b in nums]
 
 
+ASKED = {}  # (header, size) -> first outcome seen in this process; asked again at the end of the run (answers must not depend on history)
+
+
 def call(header, size):
+    out = _call(header, size)
+    if len(header) < 200:
+        if len(ASKED) < 20_000:
+            ASKED.setdefault((header, size), out)
+    return out
+
+
+def _call(header, size):
     from baize.exceptions import MalformedRangeHeader, RangeNotSatisfiable
     from baize.responses import FileResponseMixin
     try:
@@ -257,6 +268,12 @@ def run(ctx):
         ctx.case((header, size))
         if i < 2:
             ctx.sample("arbitrary-text", {"header": header, "size": size})
+    # ---- the same questions again, after everything else this process has resolved
+    for (h, sz), first in list(ASKED.items()):
+        again = _call(h, sz)
+        ctx.mon("asked-again")
+        if again != first:
+            ctx.violation("answer-depends-on-process-history", {"header": h, "size": sz}, f"first {first!r}, later {again!r}")
     ctx.monitors["contract-evaluations(icontract)"] = contracts.COUNTS["parse_range.post"]
 
 
